@@ -24,6 +24,10 @@ def run(ctx, res):
     bs = {B.name: B for B in discover(F)}
     res.floor("compound and packet-enum builders", int("CompoundBuilder" in bs) + int("PacketBuilder" in bs), 2)
     B = bs.get("CompoundBuilder")
+    # "its members" are what add_packet was given, in that order: the setter rules of C20 for the compound builder
+    from .c20 import setter_rules
+    _ns, _nc, _ = setter_rules(F, D, res, sorted(b.adt for b in bs.values() if b.name == "CompoundBuilder"))
+    res.floor("compound member adders checked", _nc + _ns, 1)
     n = 0
     if B:
         S = Summary(F, B)
